@@ -373,6 +373,76 @@ def unhashable(obj):
     return False
 
 
+# ------------------------------------------------------------------------------------------------ recursion graphs (spec/Recursion.tla)
+REC_CONST = dict(Funcs={'f1', 'f2'}, Root='f1', MaxCalls=2, DepthBound=32, VisitBudget=256, KeyMode='func+args', StepBound=100000)
+
+
+def recursion_model(check, scratch):
+    """every call graph over two forwarding functions with <= 2 calls each, analysed by the model of the code's guard; -> behaviours"""
+    d = scratch.sub('recursion')
+    cfg = tlc.write_cfg(os.path.join(d, 'Recursion.cfg'), spec='Spec', constants=dict(REC_CONST, Export=True),
+                        invariants=['DepthRespected', 'WorkBounded'], properties=['Terminates'], constraints=['ExportLine'])
+    r = tlc.run_tlc('Recursion', cfg, scratch, workers=1, timeout=1800, xmx='6g')
+    check.add_model_run('Recursion(depth 32, budget 256, key func+args)', r)
+    if r.invariants_violated or not r.ok:
+        check.error('Recursion: %s\n%s' % (r.invariants_violated, r.out[-1500:]))
+    # the variants the code does NOT have: no visit budget (exponential work under the depth bound alone), no guard at all
+    for name, const in (('no budget, depth 10', dict(REC_CONST, DepthBound=10, VisitBudget=0, StepBound=600)),
+                        ('no guard', dict(REC_CONST, DepthBound=1000, VisitBudget=0, KeyMode='none', StepBound=600))):
+        cfg = tlc.write_cfg(os.path.join(d, 'Recursion-%s.cfg' % name.split(',')[0].replace(' ', '_')), spec='Spec', constants=dict(const, Export=False), invariants=['WithinStepBound'])
+        r2 = tlc.run_tlc('Recursion', cfg, scratch, workers=4, timeout=900, xmx='6g')
+        check.legs['Recursion(%s): WithinStepBound (expected to fail: documents why the guard has three parts)' % name] = {'distinct': r2.distinct, 'violated': bool(r2.invariants_violated)}
+        if not r2.invariants_violated:
+            check.error('Recursion(%s): expected WithinStepBound to be violated' % name)
+    return [json.loads('|'.join(f)) for f in r.lines('BEH')]
+
+
+def render_graph(graph):
+    L = ['def t(*x, **y):', '    return None']
+    for f in sorted(graph):
+        L.append('def %s(*a, **k):' % f)
+        for c in graph[f]:
+            L.append('    %s(%s*a, **k)' % (c['callee'], 'S, ' if c['extra'] else ''))
+        L.append('    return None')
+    return '\n'.join(L) + '\n'
+
+
+def recursion_event(tid, beh):
+    import sigtools
+    from sigtools import _autoforwards
+    graph = beh['graph']
+    src = render_graph(graph)
+    g, fname = progs.compile_module(src)
+    real = []
+    orig = _autoforwards._autoforwards_function
+
+    def recording(func, args, kwargs):
+        real.append([getattr(func, '__name__', '?'), len(args)])
+        return orig(func, args, kwargs)
+    try:
+        _autoforwards._autoforwards_function = recording
+        try:
+            with_timeout(lambda: sigtools.signature(g['f1']))
+        except BaseException:  # noqa  (the routes of obj_event report it)
+            pass
+        finally:
+            _autoforwards._autoforwards_function = orig
+        e = obj_event(tid, 'rec.f1', g['f1'], sphinx=False)
+    finally:
+        progs.drop_cache(fname)
+    e['rec'] = {'model': [list(x) for x in beh['started']], 'real': real}
+    e['case'] = dict(e['case'], graph=graph, src=src)
+    return e
+
+
+def recursion_gen(behs):
+    def gen(shard, nshards):
+        for k, b in enumerate(behs):
+            if k % nshards == shard:
+                yield recursion_event('rec/%d' % k, b)
+    return gen
+
+
 def corpus_gen(mods, seed, frac):
     def gen(shard, nshards):
         rnd = random.Random(seed)
@@ -411,6 +481,9 @@ def run(check, tier, seed, scratch):
     check.add_model_run('Fallback(chain with the code\'s catch rules)', r)
     if r.invariants_violated or not r.ok:
         check.error('Fallback: %s\n%s' % (r.invariants_violated, r.out[-1500:]))
+    behs = recursion_model(check, scratch)
+    check.cov['recursion_graphs'] = len(behs)
+    run_trace_leg(check, scratch, 'recursion-graphs', recursion_gen(behs), None, module='Trace_Corpus', describe=describe, classify=classify)
     mods = stdlib_modules()
     run_trace_leg(check, scratch, 'corpus', corpus_gen(mods, seed, 0.35 if quick else 1.0), None, module='Trace_Corpus', describe=describe, classify=classify)
     # narrowing, systematically: forwarding wrappers from the signature universe (function, closure, method, attribute routes), discovered, and
